@@ -61,6 +61,7 @@ class ChannelItem(EFLRItem, DimensionedItem):
 
         # need the attribute defined for representation code check
         self._cast_dtype: Union[numpy_dtype_type, None] = None
+        self._cast_dtype_from_data: bool = False  #: True if the dtype was taken from the data at a write, not given
 
         self.long_name = EFLROrTextAttribute('long_name', object_class=LongNameSet)
         self.properties = PropertiesAttribute('properties')
@@ -104,6 +105,7 @@ class ChannelItem(EFLRItem, DimensionedItem):
         """Set or remove channel cast dtype."""
 
         self._set_cast_dtype(dt)
+        self._cast_dtype_from_data = False
 
     def _set_cast_dtype(self, dt: Union[numpy_dtype_type, None]) -> None:
         """Check that the provided cast dtype is acceptable and set it in the Channel."""
@@ -172,12 +174,14 @@ class ChannelItem(EFLRItem, DimensionedItem):
 
         dt = sub_data.dtype
 
-        if self.cast_dtype is not None:
+        if self.cast_dtype is not None and not self._cast_dtype_from_data:
             if dt != self.cast_dtype:
                 logger.warning(f"Data will be cast from {dt} to {self.cast_dtype}")
             return
 
+        # no cast dtype given by the user: the dtype (and representation code) follows the data of the current write
         self._set_cast_dtype(dt)
+        self._cast_dtype_from_data = True
 
     def _run_checks_and_set_defaults(self) -> None:
         """Set up default values of ChannelItem parameters if not explicitly set previously."""
